@@ -25,9 +25,9 @@ struct PF {
     trace: Option<String>,
 }
 
-const POSITIONS: [&str; 15] = [
+const POSITIONS: [&str; 16] = [
     "top-level-let", "function-body", "map-callback", "filter-callback", "reduce-callback", "module-body", "module-out-expression", "select-arm", "tuple-field", "call-argument", "format-argument",
-    "nested-function", "format-expression-argument", "deferred-in-helper-function", "include-str",
+    "nested-function", "format-expression-argument", "deferred-in-helper-function", "format-template", "include-str",
 ];
 
 fn dir_of(rel: &str) -> Vec<String> {
@@ -146,6 +146,7 @@ fn render_file(f: &PF, idx: usize) -> String {
             "tuple-field" => s.push_str(&format!("let {} = {{fld = {}}}.fld;\n", name, iv)),
             "call-argument" => s.push_str(&format!("let id{} = func (q) => q;\nlet {} = id{}({});\n", k, name, k, iv)),
             "format-argument" => s.push_str(&format!("let {} = int(\"@\" % ({}));\n", name, iv)),
+            "format-template" => s.push_str(&format!("let {} = int(\"@{{(import \\\"{}\\\").total}}\" % 1);\n", name, path)),
             "format-expression-argument" => s.push_str(&format!("let {} = int(\"@{{item.app}}\" % {{app = {}}});\n", name, iv)),
             "deferred-in-helper-function" => {
                 // the import sits in a function of a helper file that has long finished importing
